@@ -1,5 +1,6 @@
 import Mimium.Model.LexerIO
 import Mimium.Model.ParserLoops
+import Mimium.Model.Occurs
 /-! `drv_c04`: line protocol driver for C04.
 
 `drv_c04 spans` — input line (from `c04 spans`): `hex(src) \t classes \t idx:start:end,…`
@@ -37,6 +38,21 @@ def spansLine (line : String) : String :=
     | _, _ => "bad-input\tbad-input\t0"
   | _ => "bad-input\tbad-input\t0"
 
+def hexOf (s : String) : String :=
+  let digit (n : Nat) : Char := if n < 10 then Char.ofNat (48 + n) else Char.ofNat (87 + n)
+  String.ofList (s.toUTF8.toList.flatMap fun b => [digit (b.toNat / 16), digit (b.toNat % 16)])
+
+/-- `drv_c04 occurs <depth>`: one line per type `t` (bare variables excluded):
+`hex(program) \t verdict of the occurs check as written \t verdict with || \t does ?0 occur in t` -/
+def occursLines (depth : Nat) : List String :=
+  (Mimium.Occurs.enumTy depth).filterMap fun t =>
+    match t with
+    | .var _ => none
+    | _ =>
+      let show' (o : Option Bool) : String := match o with | some true => "circular" | some false => "bind" | none => "diverge"
+      some (hexOf (Mimium.Occurs.program t) ++ "\t" ++ show' (Mimium.Occurs.occ [] true 0 64 t) ++ "\t" ++
+        show' (Mimium.Occurs.occ [] false 0 64 t) ++ "\t" ++ (if (Mimium.Occurs.vars t).contains 0 then "occurs" else "fresh"))
+
 partial def loop (h : IO.FS.Stream) (out : IO.FS.Stream) (f : String → String) : IO Unit := do
   let line ← h.getLine
   if line.isEmpty then return ()
@@ -49,4 +65,8 @@ def main (args : List String) : IO UInt32 := do
   let stdout ← IO.getStdout
   match args with
   | ["spans"] => loop stdin stdout spansLine; return 0
-  | _ => IO.eprintln "usage: drv_c04 spans < cases"; return 2
+  | ["occurs", d] => do
+    for l in occursLines (d.toNat?.getD 1) do
+      stdout.putStrLn l
+    return 0
+  | _ => IO.eprintln "usage: drv_c04 spans < cases | drv_c04 occurs <depth>"; return 2
